@@ -21,6 +21,9 @@ type (
 
 func ParseTree(e sx.Sexp) (parent []int, forked []bool) {
 	must(!hasStatic(e), "no static node in concurrent lines")
+	for _, b := range tsNodes(e) {
+		must(!b, "no type-set loader in concurrent lines")
+	}
 	parent, forked, _ = parseLine([]sx.Sexp{e, sx.T("steps")})
 	return
 }
@@ -35,7 +38,7 @@ func ParseSteps(n int, steps []sx.Sexp) []Step {
 	return st
 }
 
-func Build(parent []int, forked []bool) *World { return build(parent, forked, false) }
+func Build(parent []int, forked []bool) *World { return build(parent, forked, false, nil, nil) }
 func NewRef(parent []int) *Ref                 { return newRef(parent, true) }
 func Safely(f func()) string                   { return safely(f) }
 func Canon(v interface{}) string               { return canon(v) }
